@@ -43,7 +43,11 @@ MANIFEST = dict(
           "and guns through the registered factories, runs the real engine, and TLC accepts the recorded NewGun/Bind/ShootBegin/Recv/Sample/ShootEnd "
           "lines only if they are a behaviour of GrpcWire. Right level: the statement quantifies over all entries and configurations and over "
           "interleaved good/bad neighbours; the acceptance test fires one payload and compares counters."),
-    note=("Values are compared as (prefix, token) pairs; only non-default values (proto3 cannot tell a default from an absent field). Received metadata "
+    note=("Also decided here: the metadata key rule (wire key = lower case, several entries under one wire key all arrive, -bin values, entries that "
+          "cannot be attached are never sent), error answers of the target (every status: received exactly once, the sample carries the answer), the "
+          "JSON->protobuf mapping as a TLA+ function (GrpcJson.tla) over 363 generated payload cases shot as grpc/json and as scenario calls at a "
+          "reflection-only service with nested / repeated / map / enum / bytes / oneof / well-known-type fields, TLS on/off and reflect_metadata / "
+          "authority in the connection part. Values are compared as (prefix, token) pairs; only non-default values (proto3 cannot tell a default from an absent field). Received metadata "
           "is checked to contain the entry's metadata (transport entries removed). 'Within the configured timeout' is decided as 'per call' by one "
           "run with a 1 s timeout and 1.2 s of think time between three fast calls (exit 2 if the machine was too slow to judge); all other runs use 120 s. "
           "reflect_port runs serve reflection from a second server that also implements the service: calls must arrive at the target only. A scenario stops at its first failed step, as the gun does. Trusted: renderers/projections in "
